@@ -242,6 +242,7 @@ func (c *ChunkComposer) RunLoop(reader io.Reader, cb OnCompleteMessage) error {
 						return base.NewErrRtmpShortBuffer(int(aggregateStream.header.MsgLen), int(stream.msg.Len()), "parse rtmp aggregate sub message body")
 					}
 					aggregateStream.msg.buff = nazabytes.NewBufferRefBytes(stream.msg.buff.Peek(int(aggregateStream.header.MsgLen)))
+					aggregateStream.msg.Flush(aggregateStream.header.MsgLen) // 引用的内存块全部为可读数据
 					stream.msg.Skip(aggregateStream.header.MsgLen)
 
 					// sub message回调给上层
